@@ -29,7 +29,8 @@ import re as _re
 # D16: Polars' horizontal min/max returns a length-1 series for columns that originate from literals or
 # from join padding (reproduced in pure Polars, see DESIGN section 4 D16)
 ENGINE_BUG_RE = _re.compile(
-    r"_horizontal\(.*to be broadcasted, ensure it is a scalar|sort expressions must have same length as DataFrame", _re.S
+    r"_horizontal\(.*to be broadcasted, ensure it is a scalar|sort expressions must have same length as DataFrame"
+    r"|output length of `map` \(1\) must be equal to the input length.*_horizontal\(", _re.S
 )
 
 
@@ -62,8 +63,8 @@ def polars_horizontal_bug_applies(prog, where):
             trigger = True  # an unpartitioned aggregate in mutate is a scalar column for Polars, like a literal
         if st["verb"] == "summarize" and any(not kf.has_col(e) for _n, e in st["kw"]):
             trigger = True
-        if st["verb"] == "join" and st.get("how") in ("left", "full"):
-            trigger = True
+        if st["verb"] == "join":
+            trigger = True  # padded rows (outer joins) and runs of one operand row matched several times
     return has_h and trigger
 
 
@@ -107,7 +108,10 @@ def contradiction_in_filter(prog, where, ref_env):
                 return {"id": ref_env[e["t"]].name_to_id().get(e["n"], e["n"])}
             if e.get("k") == "c" and cur is not None:
                 return {"id": cur.name_to_id().get(e["n"], e["n"])}
-            return {k: canon(v, cur) for k, v in e.items() if k != "sh"}
+            out = {k: canon(v, cur) for k, v in e.items() if k != "sh"}
+            if out.get("k") == "fn" and out.get("op") in ("hany", "hall", "and", "or") and out.get("a") and all(_json.dumps(a, sort_keys=True, default=str) == _json.dumps(out["a"][0], sort_keys=True, default=str) for a in out["a"]):
+                return out["a"][0]  # any(m, m) is m (the optimizer sees it like that, too)
+            return out
         if isinstance(e, list):
             return [canon(v, cur) for v in e]
         return e
